@@ -32,6 +32,7 @@ pub const KNOWN_REAPPEND: &str = "reappended-entry-at-or-below-earlier-id-evicte
 pub fn profile(tier: Tier) -> Profile {
     let mut p = Profile::base(if tier == Tier::Quick { 40 } else { 100 });
     p.small_cache = true;
+    p.big_batches = true;
     p.w_steps = 8;
     p.w_flush = 4;
     p.w_reopen = 1;
